@@ -67,7 +67,7 @@ def cmd_add(src, sid, prop, skip_tests=False):
     try:
         shutil.copy(os.path.join(dst, 'demo.py'), os.path.join(wt, '_demo_seed.py'))
         rc0, out0 = run_demo(wt, '_demo_seed.py')
-        r = sh('git', '-C', wt, 'apply', os.path.join(dst, 'patch.diff'))
+        r = sh('git', '-C', wt, 'apply', '--3way', os.path.join(dst, 'patch.diff'))
         assert r.returncode == 0, 'patch does not apply to HEAD: ' + r.stderr
         rc1, out1 = run_demo(wt, '_demo_seed.py')
         os.remove(os.path.join(wt, '_demo_seed.py'))
@@ -100,7 +100,7 @@ def cmd_run(sid, props, tier='quick'):
     wt = worktree(sid)
     res = {}
     try:
-        r = sh('git', '-C', wt, 'apply', os.path.join(dst, 'patch.diff'))
+        r = sh('git', '-C', wt, 'apply', '--3way', os.path.join(dst, 'patch.diff'))
         assert r.returncode == 0, 'patch does not apply to HEAD: ' + r.stderr
         for p in props:
             res[p] = run_check(wt, p, tier)
